@@ -208,8 +208,13 @@ pub async fn run_layout(rep: &mut Report, sub_seed: u64, keys_n: usize, table: &
     for n in layout.locals.iter() {
         net.add_redis(n);
     }
+    // in a third of the layouts the proxy forwards instead of answering MOVED (active redirection);
+    // there nothing may ever be executed on a local node that does not own the key's slot
+    let redirect = rng.chance(1, 3);
     let opts = ProxyOpts {
         backend_conn_num: rng.urange(1, 3),
+        active_redirection: redirect,
+        backend_timeout_ms: 300,
         ..Default::default()
     };
     let proxy = net.add_proxy(&layout.proxy, &opts);
@@ -270,7 +275,16 @@ pub async fn run_layout(rep: &mut Report, sub_seed: u64, keys_n: usize, table: &
         };
         let (reply, execs) = probe.run(argv.clone()).await;
         let desc = json!({"command": argv.iter().map(|a| lossy(a)).collect::<Vec<_>>(), "key_hex": crate::c15::hex(key), "slot": slot, "owner": format!("{:?}", owner), "reply": resp_to_string(&reply), "executed_on": execs.keys().collect::<Vec<_>>(), "ctx": ctx});
-        check_single(rep, owner, slot, &argv, &reply, &execs, desc);
+        if redirect && matches!(owner, Owner::Peer(_)) {
+            // forwarded to the peer proxy (which does not exist in this network): whatever the reply, no local node may execute it
+            rep.count("redirect_mode_peer_probes", 1);
+            let total: usize = execs.values().map(|v| v.len()).sum();
+            if total != 0 {
+                rep.violation("C09:forwarded-command-executed-locally", format!("slot {} belongs to a peer, active redirection is on, but {} executions happened on local nodes", slot, total), desc);
+            }
+        } else {
+            check_single(rep, owner, slot, &argv, &reply, &execs, desc);
+        }
         if ki < 2 && rep.samples.len() < 4 {
             rep.sample(json!({"key": lossy(key), "slot": slot, "owner": format!("{:?}", owner), "reply": resp_to_string(&reply), "ranges_in_layout": layout.ranges.len()}));
         }
@@ -295,8 +309,10 @@ pub async fn run_layout(rep: &mut Report, sub_seed: u64, keys_n: usize, table: &
                 }
                 other
             };
-            let shape = rng.below(5);
+            let shape = rng.below(7);
             let argv: Vec<Vec<u8>> = match shape {
+                5 => vec![b"EVAL".to_vec(), b"return 1".to_vec(), b"2".to_vec(), key.clone(), k2.clone(), b"arg".to_vec()],
+                6 => vec![b"EVALSHA".to_vec(), b"abc".to_vec(), b"2".to_vec(), k2.clone(), key.clone()],
                 0 => vec![b"MGET".to_vec(), key.clone(), k2.clone()],
                 1 => vec![b"MSET".to_vec(), key.clone(), b"1".to_vec(), k2.clone(), b"2".to_vec()],
                 2 => vec![b"MSETNX".to_vec(), key.clone(), b"1".to_vec(), k2.clone(), b"2".to_vec()],
@@ -307,7 +323,42 @@ pub async fn run_layout(rep: &mut Report, sub_seed: u64, keys_n: usize, table: &
             rep.evaluations += 1;
             let total_exec: usize = execs.values().map(|v| v.len()).sum();
             let desc = json!({"command": argv.iter().map(|a| lossy(a)).collect::<Vec<_>>(), "slots": [slot, model_slot(&k2)], "owner": format!("{:?}", owner), "reply": resp_to_string(&reply), "executed": execs.iter().map(|(k, v)| (k.clone(), v.len())).collect::<BTreeMap<_, _>>(), "ctx": ctx});
-            if model_slot(&k2) != slot {
+            // whatever the mode and the reply: a node only ever executes (sub-)commands whose keys it owns
+            for (node, cmds) in execs.iter() {
+                for c in cmds {
+                    let ks: Vec<&Vec<u8>> = match String::from_utf8_lossy(&c[0]).to_uppercase().as_str() {
+                        "EVAL" | "EVALSHA" => c.iter().skip(3).take(2).collect(),
+                        "MSET" | "MSETNX" => c.iter().skip(1).step_by(2).collect(),
+                        "SET" | "SETNX" | "GETSET" => c.iter().skip(1).take(1).collect(),
+                        _ => c.iter().skip(1).collect(),
+                    };
+                    for k in ks {
+                        rep.count("executed_keys_checked_against_owner", 1);
+                        if probe.layout.owner[model_slot(k)] != Owner::Local(node.clone()) {
+                            rep.violation("C09:multi-key-executed-on-a-node-that-does-not-own-the-key", format!("{} executed {} with key {} (slot {}), which belongs to {:?}", node, String::from_utf8_lossy(&c[0]), lossy(k), model_slot(k), probe.layout.owner[model_slot(k)]), desc.clone());
+                        }
+                    }
+                }
+            }
+            if shape >= 5 {
+                // multi-key scripts: refused unless all keys are in one slot; then routed like a single-key command
+                rep.count(if model_slot(&k2) != slot { "multi_key_eval_cross_slot" } else { "multi_key_eval_same_slot" }, 1);
+                if model_slot(&k2) != slot {
+                    if is_error(&reply).is_none() || total_exec != 0 {
+                        rep.violation("C09:cross-slot-script-not-refused", format!("{} over slots {} and {} answered {} with {} executions (active redirection {})", String::from_utf8_lossy(&argv[0]), slot, model_slot(&k2), resp_to_string(&reply), total_exec, redirect), desc.clone());
+                    }
+                } else if let Owner::Local(node) = owner {
+                    let on_node = execs.get(node).map(|v| v.len()).unwrap_or(0);
+                    if on_node != 1 || total_exec != 1 || execs.get(node).map(|v| v[0] != argv).unwrap_or(true) {
+                        rep.violation("C09:same-slot-script-misrouted", format!("expected the script once, unchanged, on {}; saw {} there and {} in total; reply {}", node, on_node, total_exec, resp_to_string(&reply)), desc.clone());
+                    }
+                } else if total_exec != 0 {
+                    rep.violation("C09:same-slot-script-misrouted", format!("slot {} is not local but the script was executed {} times locally", slot, total_exec), desc.clone());
+                }
+            } else if redirect {
+                // fan-out commands are split per key in this mode; the per-key ownership check above is the oracle
+                rep.count("redirect_mode_multi_key_probes", 1);
+            } else if model_slot(&k2) != slot {
                 rep.count("multi_key_cross_slot", 1);
                 if is_error(&reply).is_none() {
                     rep.violation("C09:cross-slot-multi-key-accepted", format!("multi-key command over slots {} and {} answered {}", slot, model_slot(&k2), resp_to_string(&reply)), desc.clone());
